@@ -133,6 +133,24 @@ def check_step(recipe, doc, snap, history, fails, NS=None):
         f3 = [id(x) for x in q(sv.filter, text, kids[::-1], namespaces=NS)][::-1]
         if not (f1 == f2 == f3):
             fails.append(('filter-tag-differs-from-filter-list', f'{text!r}: {len(f1)}/{len(f2)}/{len(f3)} children'))
+    # (3b) filter() over parentless nodes from different trees: every item is its own question, in any order
+    if call['call'] == 'filter-list' and call.get('perm') and call['perm'][0] % 2 == 0:
+        others = []
+        for _ in range(2):
+            d2 = trees.materialise(recipe)
+            top2 = d2.top()
+            tops = [c for c in top2.contents if isinstance(c, bs4.Tag)] if isinstance(top2, bs4.BeautifulSoup) else [top2]
+            if tops:
+                others.append(tops[0].extract())
+        others.append(bs4.BeautifulSoup('', 'html.parser').new_tag('input', attrs={'type': 'radio', 'name': 'g1'}))
+        try:
+            g1 = [id(x) for x in q(sv.filter, text, others, namespaces=NS)]
+            g2 = [id(x) for x in q(sv.filter, text, others[::-1], namespaces=NS)][::-1]
+            want = [id(x) for x in others if q(sv.match, text, x, namespaces=NS)]
+            if not (g1 == g2 == want):
+                fails.append(('filter-over-detached-roots-depends-on-order', f'{text!r}: forward {len(g1)}, reversed {len(g2)}, per-item match {len(want)} of {len(others)}'))
+        except Exception as e:  # noqa: BLE001
+            fails.append(('raises-' + type(e).__name__, f'filter({text!r}, detached roots): {e!r:.150}'))
     # (2) pristine copy, purged cache
     sv.purge()
     fresh = trees.materialise(recipe)
